@@ -74,16 +74,16 @@ Theorem C18_upsert_needs_pk_check :
   exists pk all m u t t' b a, at_upsert pk all false m u [] t = Ok t' b a /\ map fst b <> [] /\ a = [].
 Proof. exact at_upsert_needs_pk_check. Qed.
 
-(* outside insert_supported the recovery names the wrong key / nothing (listed findings) *)
-Theorem C18_insert_pk_refuted :
-  exists listed last_id nrows,
-    insert_supported listed nrows = false
-    /\ recover listed last_id nrows = Some [[VNull]]
-    /\ [[VInt last_id]] <> [[VNull]].
-Proof. exact recover_refuted. Qed.
+(* a mix of explicit and generated key values in one statement is refused rather than recorded wrongly *)
+Theorem C18_insert_mixed_refused : forall ks last_id nrows,
+  all_explicit ks = false -> all_generated ks = false -> recover (Some ks) last_id nrows = None.
+Proof. exact recover_mixed_refused. Qed.
 
-Theorem C18_insert_batch_refuted : forall last_id n, 2 <= n -> recover None last_id n = None.
-Proof. exact recover_batch_refuted. Qed.
+(* what the shipped code did before the repairs c33c2c0 / b8ab280 (for the record) *)
+Theorem C18_insert_pk_refuted_prefix :
+  recover_prefix (Some [[VNull]]) 4%Z 1 = Some [[VNull]] /\ assigned_keys (Some [[VNull]]) 4%Z 1 = [[VInt 4%Z]]
+  /\ recover_prefix None 4%Z 2 = None.
+Proof. exact recover_prefix_refuted. Qed.
 
 (* the argument index computed for a key placeholder of a multi-row VALUES list is its textual position among the placeholders *)
 Theorem C18_insert_arg_index : forall rows pkidx, go_pk_idx rows pkidx = spec_pk_idx rows pkidx.
@@ -139,7 +139,9 @@ Example C18_pk_reject_nonvacuous :
 Proof. split; vm_compute; reflexivity. Qed.
 
 Example C18_insert_nonvacuous :
-  insert_supported (Some [[VInt 7]; [VInt 9]]%Z) 2 = true /\ insert_supported None 1 = true
+  insert_supported (Some [[VInt 7]; [VInt 9]]%Z) 2 = true /\ insert_supported None 3 = true
+  /\ insert_supported (Some [[VNull]; [VInt 0]]%Z) 2 = true /\ recover (Some [[VNull]; [VInt 0]]%Z) 4%Z 2 = Some [[VInt 4]; [VInt 5]]%Z
+  /\ recover None 4%Z 3 = Some [[VInt 4]; [VInt 5]; [VInt 6]]%Z
   /\ go_pk_idx [[false; true; false]; [true; true; true]; [false; false; true]] 1 = [Some 0; Some 2; None]%Z.
 Proof. repeat split; vm_compute; reflexivity. Qed.
 
